@@ -606,6 +606,18 @@ def mk_and(a, b):
 
 
 def mk_cmp(op, a, b):
+    # a member of an Enum class supplied by a rule against a member spelled in the code / a constant (str-valued enums)
+    if op in ("==", "!=", "is", "is not") and (a[0] == "enum" or b[0] == "enum"):
+        e, o = (a, b) if a[0] == "enum" else (b, a)
+        same = None
+        if o[0] == "enum":
+            same = e[1:3] == o[1:3]
+        elif o[0] == "sym" and o[1].startswith(e[1] + ".") and o[1].count(".") == 1:
+            same = o[1].split(".")[1] == e[2]
+        elif o[0] == "c" and op in ("==", "!="):
+            same = o[1] == e[3]
+        if same is not None:
+            return C(same if op in ("==", "is") else not same)
     if a[0] == "c" and b[0] == "c":
         x, y = a[1], b[1]
         try:
@@ -718,6 +730,10 @@ def renorm(v):
 
 def mk_vcall(target, args, kwargs):
     """call of a value: a bound method becomes a method call, a dotted name a call by name"""
+    if target[0] == "raise":
+        return target  # evaluating the callee raises: there is no call
+    if target[0] == "if" and (target[2][0] == "raise" or target[3][0] == "raise"):
+        return mk_if(target[1], mk_vcall(target[2], args, kwargs), mk_vcall(target[3], args, kwargs))
     if target[0] == "attr":
         return ("mcall", target[1], target[2], tuple(args), tuple(kwargs))
     if target[0] == "sym":
@@ -729,6 +745,12 @@ def mk_vcall(target, args, kwargs):
 
 
 def mk_sub(base, key):
+    # a table keyed by the members of an Enum class, subscripted with a member supplied by a rule
+    if base[0] == "dict" and key[0] == "enum" and base[1] and all(isinstance(kv, tuple) and len(kv) == 2 and kv[0][0] == "sym" and kv[0][1].startswith(key[1] + ".") for kv in base[1]):
+        for k_, v_ in base[1]:
+            if k_[1] == f"{key[1]}.{key[2]}":
+                return v_
+        return ("raise", "KeyError")
     # X[a:][k] is X[a + k] (a, k >= 0)
     if base[0] == "slice" and len(base) == 4 and base[3] == NONE and base[2][0] == "c" and isinstance(base[2][1], int) and base[2][1] >= 0 and key[0] == "c" and isinstance(key[1], int) and not isinstance(key[1], bool) and key[1] >= 0:
         return mk_sub(base[1], C(base[2][1] + key[1]))
@@ -882,6 +904,7 @@ class AV:
         self._nt = None
         self._inst: dict = {}
         self.nt_of: dict = {}
+        self.handler_log: list = []  # handlers that translate an exception into another one
         self.attr_stores: list = []  # (function, value of the object, attribute, value stored, node)
 
     @staticmethod
@@ -1055,7 +1078,7 @@ class AV:
         if isinstance(st, ast.Assign):
             v = self._ev(st.value, fr)
             lifted = None
-            if has(v, "raise") and v[0] == "if":
+            if v[0] == "raise" or (has(v, "raise") and v[0] == "if"):
                 lifted, v = _lift_raise(v)
             for t in st.targets:
                 self._bind(t, v, fr)
@@ -1118,6 +1141,13 @@ class AV:
             hr = self._run(list(h.body), hf, ())
             hr = None if hr is _FALL else hr
             if hr is not None and hr[0] == "raise":
+                # (function, handled type, what the handler raises, value of the guarded body)
+                self.handler_log.append((fr.func, norm(h.type) if h.type is not None else "BaseException", hr, r, h))
+                # a name whose guarded evaluation is known to raise a handled exception: the handler's exception surfaces
+                caught = {(dotted(t) or "").split(".")[-1] for t in (h.type.elts if isinstance(h.type, ast.Tuple) else [h.type])} if h.type is not None else None
+                for k_, v_ in list(after.items()):
+                    if isinstance(v_, tuple) and v_ and v_[0] == "raise" and before.get(k_) != v_ and (caught is None or str(v_[1]).split(".")[-1] in caught or "Exception" in caught):
+                        after[k_] = hr
                 continue
             tn = norm(h.type) if h.type is not None else "BaseException"
             cond = ("call", "raised", (C(tn),), ())
@@ -1808,7 +1838,7 @@ class AV:
                 tgt = self._name(fn.id, fr) if fn.id in self._module_env(fr.rel) else None
             if tgt is not None and tgt[0] == "fn":
                 return self._apply_closure(tgt[1], args, kwargs, fr)
-            if tgt is not None and fn.id in fr.env and tgt[0] in ("attr", "bv", "sub", "if") or (tgt is not None and fn.id in fr.env and tgt[0] == "sym" and tgt[1] != fn.id):
+            if tgt is not None and fn.id in fr.env and tgt[0] in ("attr", "bv", "sub", "if", "call", "mcall", "vcall", "raise") or (tgt is not None and fn.id in fr.env and tgt[0] == "sym" and tgt[1] != fn.id):
                 # a callable value held in a local (bound method, element of a sequence of callables)
                 v = mk_vcall(tgt, args, kwargs_t)
                 self.call_log.append((fr.func, n, v))
@@ -1817,6 +1847,11 @@ class AV:
             tgt = self._ev(fn, fr)
             if tgt[0] == "fn":
                 return self._apply_closure(tgt[1], args, kwargs, fr)
+            if tgt[0] == "raise" or (tgt[0] == "if" and (tgt[2][0] == "raise" or tgt[3][0] == "raise")) or (tgt[0] == "sym" and isinstance(fn, ast.Call)):
+                v = mk_vcall(tgt, args, kwargs_t)
+                if v[0] != "raise":
+                    self.call_log.append((fr.func, n, v))
+                return v
             v = ("call", show(tgt), args, kwargs_t)
             self.call_log.append((fr.func, n, v))
             return v
@@ -1901,6 +1936,14 @@ class AV:
         return v
 
     def _builtin(self, n: ast.Call, d_, args, kwargs, fr: Frame):
+        # {k1: v1, ...}.get(key, default) on a table of constant keys is a chain of comparisons
+        if isinstance(n.func, ast.Attribute) and n.func.attr == "get" and len(args) in (1, 2) and not kwargs:
+            tbl = self._ev(n.func.value, fr)
+            if tbl[0] == "dict" and tbl[1] and all(isinstance(kv, tuple) and len(kv) == 2 and kv[0][0] == "c" for kv in tbl[1]) and len(tbl[1]) <= 8:
+                out = args[1] if len(args) == 2 else NONE
+                for k_, v_ in reversed(tbl[1]):
+                    out = mk_if(mk_cmp("==", args[0], k_), v_, out)
+                return out
         fn = n.func
         kw = dict(kwargs)
         if isinstance(fn, ast.Name):
